@@ -129,3 +129,30 @@ func VerifC35_Histories() {
 		vAssert(err == errWaitDoneTimedOut, "incomplete confirmations must end in the timeout error")
 	}
 }
+
+// A confirmation arrives while the member is already checking for
+// completion: the listener's update of the confirmations and the checker's
+// reads must be ordered by synchronisation (no data race), and the outcome
+// must be one of the two serial ones.
+func VerifC35_ConcurrentArrival() {
+	ops := []chain.Address{"a", "b"}
+	msg := big.NewInt(777)
+	ch := &vstubChannel{}
+	sdc := newSigningDoneCheck(len(ops), ch, group.NewMembershipValidator(log.Logger("verif"), ops, &vstubSigning{}))
+	ctx, cancel := context.WithCancel(context.Background())
+	sdc.listen(ctx, msg, 1, 1000, []group.MemberIndex{1, 2})
+	for m := 1; m <= 2; m++ {
+		ch.handler(&vMsg{key: byte(m - 1), payload: &signingDoneMessage{senderID: group.MemberIndex(m), message: msg, attemptNumber: 1, endBlock: uint64(10 * m), signature: vSigs[0]}})
+	}
+	go func() {
+		if !vSymbolic() {
+			time.Sleep(350 * time.Millisecond)
+		}
+		cancel()
+	}()
+	res, end, err := sdc.waitUntilAllDone(ctx)
+	vReach("checked")
+	if err == nil {
+		vAssert(res.Signature.Equals(vSigs[0]) && end == 20, "result does not reflect both confirmations")
+	}
+}
